@@ -164,6 +164,11 @@ pin_project! {
         config: ServiceConfig,
         error: Option<DispatchError>,
 
+        // The peer has closed its writing side, but bytes it sent before are still undecoded in
+        // the read buffer (request body back-pressure, or a full pipeline queue). Nothing more is
+        // read; the end of the stream is acted on once those bytes have been worked off.
+        read_eof: bool,
+
         #[pin]
         pub(super) state: State<S, B, X>,
         // when Some(_) dispatcher is in state of receiving request payload
@@ -281,6 +286,7 @@ where
                     conn_data: conn_data.0.map(Rc::new),
                     config: config.clone(),
                     error: None,
+                    read_eof: false,
 
                     state: State::None,
                     payload: None,
@@ -1219,6 +1225,11 @@ where
             return Ok(false);
         };
 
+        // the end of the stream has been seen already
+        if *this.read_eof {
+            return Ok(true);
+        }
+
         let mut io = Pin::new(this.io.as_mut().unwrap());
 
         let mut read_some = false;
@@ -1411,12 +1422,29 @@ where
                     inner.as_mut().poll_request(cx)?;
 
                     if should_disconnect {
-                        // I/O stream should to be closed
                         let inner = inner.as_mut().project();
-                        inner.flags.insert(Flags::READ_DISCONNECT);
-                        if let Some(mut payload) = inner.payload.take() {
-                            payload.set_error(PayloadError::Incomplete(None));
-                            payload.feed_eof();
+
+                        // Everything the peer sent before closing its side counts: bytes that are
+                        // still undecoded because the payload consumer applies back-pressure, or
+                        // because the pipeline queue is full, are worked off first. (The payload's
+                        // I/O waker, registered by `need_read`, or the running handler bring the
+                        // dispatcher back here.)
+                        let undecoded_waiting = !inner.read_buf.is_empty()
+                            && (inner.messages.len() >= MAX_PIPELINED_MESSAGES
+                                || inner
+                                    .payload
+                                    .as_ref()
+                                    .is_some_and(|pl| pl.need_read(cx) == PayloadStatus::Pause));
+
+                        if undecoded_waiting {
+                            *inner.read_eof = true;
+                        } else {
+                            // I/O stream should to be closed
+                            inner.flags.insert(Flags::READ_DISCONNECT);
+                            if let Some(mut payload) = inner.payload.take() {
+                                payload.set_error(PayloadError::Incomplete(None));
+                                payload.feed_eof();
+                            }
                         }
                     };
 
@@ -1536,6 +1564,17 @@ where
                         // The read buffer was worked off during this poll (payload consumed or
                         // being drained, requests decoded), but the I/O stream was not polled to
                         // `Pending` and holds no waker: nothing else would resume reading.
+                        cx.waker().wake_by_ref();
+                    } else if *inner_p.read_eof
+                        && !inner_p.flags.contains(Flags::READ_DISCONNECT)
+                        && !(!inner_p.read_buf.is_empty()
+                            && (inner_p.messages.len() >= MAX_PIPELINED_MESSAGES
+                                || inner_p
+                                    .payload
+                                    .as_ref()
+                                    .is_some_and(|pl| pl.need_read(cx) == PayloadStatus::Pause)))
+                    {
+                        // what held up the end of the stream is gone (see `read_eof`): act on it
                         cx.waker().wake_by_ref();
                     }
                     Poll::Pending
